@@ -2,6 +2,8 @@ mod c02;
 mod c03;
 mod c04;
 mod c05;
+mod c06;
+mod c06sig;
 mod c07;
 mod schema;
 mod uni;
@@ -15,6 +17,7 @@ mod c12;
 mod c15;
 mod c16;
 mod c18;
+mod c20;
 mod e2;
 mod corpus;
 mod front;
@@ -37,6 +40,7 @@ fn checks_for(property: &str, tier: Tier) -> Vec<Box<dyn Check>> {
         | "C03" => vec![Box::new(c02::Universe::new(c02::Mode::Acceptance, tier)), Box::new(c03::Mutants::new(false, tier))],
         | "C04" => c04::checks(tier),
         | "C05" => c05::checks(),
+        | "C06" => c06::checks(tier),
         | "C12" => vec![Box::new(c12::Fmt::new(c12::Mode::Meaning, tier))],
         | "C13" => vec![Box::new(c12::Fmt::new(c12::Mode::Text, tier))],
         | "C14" => vec![Box::new(c12::Fmt::new(c12::Mode::Idempotence, tier))],
@@ -53,6 +57,7 @@ fn checks_for(property: &str, tier: Tier) -> Vec<Box<dyn Check>> {
         | "C09" => c09::checks(tier),
         | "C10" => c10::checks(tier),
         | "C11" => c11::checks(tier),
+        | "C20" => c20::checks(tier),
         | _ => vec![],
     }
 }
